@@ -1,0 +1,14 @@
+//go:build verif
+
+package reactive
+
+// VerifWaitGroupAddWindow, if set, is called by waitGroup.Add after an element turned out to be pending already and
+// before the pre-incremented counter is corrected. It exists only in verification builds (build tag "verif") and is
+// used to replay the interleaving of a duplicate Add with a concurrent Done deterministically.
+var VerifWaitGroupAddWindow func()
+
+func verifWaitGroupAddWindow() {
+	if hook := VerifWaitGroupAddWindow; hook != nil {
+		hook()
+	}
+}
